@@ -416,10 +416,11 @@ class RawPeer:
 class Session:
     """scripted control connection + optional data connection, driven synchronously"""
 
-    def __init__(self, world, port=2121, name="peer", advance=None):
+    def __init__(self, world, port=2121, name="peer", advance=None, host="127.0.0.1"):
         self.world = world
         self.peer = world.peer(name)
         self.port = port
+        self.host = host
         self.ctl = None
         self.data = None
         self.pasv_port = None
@@ -427,7 +428,7 @@ class Session:
         self.advance = advance
 
     def connect(self):
-        self.ctl = self.peer.connect(self.port)
+        self.ctl = self.peer.connect(self.port, self.host)
         self.world.settle(self.advance)
         r = self.ctl.take_replies()
         self.transcript.append(("<connect>", r))
